@@ -1007,7 +1007,7 @@ class Explorer:
 
 def real_of_float(x: float):
     if x != x or x in (float("inf"), float("-inf")):
-        raise EngineError("non-finite float has no Real encoding")
+        raise Unsupported("a non-finite float (inf / nan) reached real arithmetic: no encoding over the reals")
     fr = Fraction(repr(x)) if isinstance(x, float) else Fraction(x)
     return z3.RealVal(f"{fr.numerator}/{fr.denominator}")
 
